@@ -1699,7 +1699,33 @@ fn c15(ctx: &Ctx, gi: usize, ri: usize, rep: &mut Report, note: &dyn Fn(&str)) {
         };
         let root = &root_owned;
         if exp.len() != 1 || &exp[0] != root {
-            rep.cell("token-tree-differs-from-pest (see C02)");
+            // The helpers enumerate a tree: it has to be the pair tree (pest's, pruned).  Only C02's known finding
+            // (tokens of rules inside skip-rule bodies, skip rules as entry points) and, for grammars translated from
+            // the unoptimized AST, the tree of the reference machine on that expression are accepted instead.
+            let reach = skip_reach(g);
+            let known = entry_is_inherited_skip_rule(g, ri)
+                || (!reach.is_empty() && strip_rules(&exp, &reach) == strip_rules(&[root_owned.clone()], &reach));
+            let mut as_raw = false;
+            if e.options.contains("pest_optimizer = false") {
+                if let Ok(gr) = Grammar::load_raw(e.src) {
+                    let r = m::run(&gr, ri, input, "", &[], false, Atom::NonAtomic);
+                    if !(r.diverged || r.nonprogress) {
+                        as_raw = pruned(&gr, &base::m_toks_of(&r)) == vec![root_owned.clone()];
+                    }
+                }
+            }
+            if known {
+                rep.cell("token-tree-differs-from-pest (C02's known finding)");
+            } else if as_raw {
+                rep.cell("token-tree-of-the-unoptimized-expression");
+            } else {
+                rep.violation(case.violation(
+                    "helpers-enumerate-a-tree-that-is-not-the-pair-tree",
+                    show_toks(g, &exp),
+                    show_toks(g, &[root_owned.clone()]),
+                    "as_token() against pest's tree (descendants of @/$ tokens removed)".into(),
+                ));
+            }
         }
         let exp = vec![root_owned.clone()];
         let count = root.count();
